@@ -1310,6 +1310,27 @@ void rfbInitServer(rfbScreenInfoPtr screen)
 }
 
 void rfbShutdownServer(rfbScreenInfoPtr screen,rfbBool disconnectClients) {
+  /* Stop accepting first: a connection the listener thread is just setting up is already in the
+     client list before its thread exists, and the listener would start that thread after the
+     loop below has passed (and tried to join) the client. */
+  rfbHttpShutdownSockets(screen);
+  rfbShutdownSockets(screen);
+
+#ifdef LIBVNCSERVER_HAVE_LIBPTHREAD
+  if (screen->backgroundLoop) {
+      /*
+	Notify the listener thread. This simply writes a NULL byte to the notify pipe in order to get past the select()
+	in listenerRun, the loop in there will then break because the rfbShutdownSockets() above has set screen->socketState.
+      */
+      write(screen->pipe_notify_listener_thread[1], "\x00", 1);
+      /* And wait for it to finish. */
+      pthread_join(screen->listener_thread, NULL);
+      /* Now we can close the pipe */
+      close(screen->pipe_notify_listener_thread[0]);
+      close(screen->pipe_notify_listener_thread[1]);
+  }
+#endif
+
   if(disconnectClients) {
     /* also the clients that are closed but not reaped by rfbProcessEvents() yet */
     rfbClientIteratorPtr iter = rfbGetClientIteratorWithClosed(screen);
@@ -1348,24 +1369,6 @@ void rfbShutdownServer(rfbScreenInfoPtr screen,rfbBool disconnectClients) {
 
     rfbReleaseClientIterator(iter);
   }
-
-  rfbHttpShutdownSockets(screen);
-  rfbShutdownSockets(screen);
-
-#ifdef LIBVNCSERVER_HAVE_LIBPTHREAD
-  if (screen->backgroundLoop) {
-      /*
-	Notify the listener thread. This simply writes a NULL byte to the notify pipe in order to get past the select()
-	in listenerRun, the loop in there will then break because the rfbShutdownSockets() above has set screen->socketState.
-      */
-      write(screen->pipe_notify_listener_thread[1], "\x00", 1);
-      /* And wait for it to finish. */
-      pthread_join(screen->listener_thread, NULL);
-      /* Now we can close the pipe */
-      close(screen->pipe_notify_listener_thread[0]);
-      close(screen->pipe_notify_listener_thread[1]);
-  }
-#endif
 }
 
 #if !defined LIBVNCSERVER_HAVE_GETTIMEOFDAY && defined WIN32
